@@ -4,7 +4,7 @@ import os
 import re
 from framework import REPO, ROOT
 
-TIE = ["Nsq.Tie.AdminGate", "Nsq.Tie.AdminFanout", "Nsq.Tie.AdminProg"]
+TIE = ["Nsq.Tie.AdminGate", "Nsq.Tie.AdminFanout", "Nsq.Tie.AdminProg", "Nsq.Tie.AdminNotify"]
 PROPS = ["Nsq.Props.C17"]
 STREAMS = [("gate_identity", "^TestVerifE7Identity$"), ("gate_fanout", "^TestVerifE7Fanout$"),
            ("gate_config", "^TestVerifE7Config$"), ("gate_prog", "^TestVerifE7Prog$")]
@@ -328,7 +328,9 @@ def run(ctx):
                 corr_broken.append("harness %s exit %s" % (test, rc))
                 continue
             for l in out.splitlines():
-                if l.startswith("E7-"):
+                if l.startswith("E7-NOTIFY-BAD "):
+                    ctx.violation("notify:" + l.split()[2], "notification content: " + l[14:], "harness line: %s\n" % l)
+                elif l.startswith("E7-"):
                     ctx.corr.setdefault("distribution", []).append(l)
             ops = open(opsp).read().splitlines()
             impl = open(implp).read().splitlines()
